@@ -208,6 +208,13 @@ func runScenario(sc scenario) (r childResult) {
 			continue
 		}
 		sameConn := h.name == "in-flight/same-client" && sc.Via != "raw" && rpclab.Multiplexed(tr)
+		if sameConn && r.ConnClosed == 0 {
+			// the count was taken when the faulty call returned; the close of its connection may follow that
+			// return (the call is failed first, then the connection is closed): look again, with patience
+			for wait := time.Now().Add(3 * time.Second); r.ConnClosed == 0 && time.Now().Before(wait); time.Sleep(10 * time.Millisecond) {
+				r.ConnClosed = atomic.LoadInt64(&c1.closed) - closedBefore
+			}
+		}
 		switch {
 		case sameConn && r.ConnClosed > 0:
 			r.Notes = append(r.Notes, "the in-flight call on the faulty connection failed with the connection (allowed): "+st.Err)
